@@ -96,6 +96,7 @@ type Client struct {
 	done           chan struct{}  // closed when the Client is closed
 	ready          chan struct{}  // closed when the connection is negotiated
 	isClosed       uint32         // used atomically to prevent duplicate closure of done
+	sentClose      uint32         // set atomically once this Client writes CloseConnection
 	version        VersionNum     // sent in headers; established during negotiation
 }
 
@@ -733,7 +734,7 @@ func (c *Client) handleIncoming() error {
 
 		c.logger.ReceivedMsg(hdr, c.version)
 
-		if hdr.typ == MsgCloseConnectionResponse {
+		if hdr.typ == MsgCloseConnectionResponse && atomic.LoadUint32(&c.sentClose) == 1 {
 			receivedClosed = true
 		}
 
@@ -832,6 +833,10 @@ func (c *Client) handleOutgoing() error {
 			if err := c.conn.SetWriteDeadline(time.Now().Add(c.timeout)); err != nil {
 				return fmt.Errorf("failed to set write deadline: %w", err)
 			}
+		}
+
+		if msg.typ == MsgCloseConnection {
+			atomic.StoreUint32(&c.sentClose, 1)
 		}
 
 		c.logger.SendingMsg(msg.Header)
